@@ -211,6 +211,7 @@ def run(ck):
             ck.broken('C12.e', 'rfc1055_decode:ambiguous', where, 'two paths for %s: %s / %s' % (key, table[key], val))
         table[key] = val
     oracle = oracle_table()
+    unread = False
     # every oracle row must be realised by the paths covering it, every path must match a row
     matched = set()
     for key, val in sorted(table.items(), key=str):
@@ -224,13 +225,19 @@ def run(ck):
                 continue
             matched.add(row)
             want = oracle[row]
+            if val[0] == '?':
+                unread = True
+                ck.broken('C12.e', k, where, 'the next state on this path is not a constant the rule can read (%s): computed through a table or a helper result'
+                          % fmt(sym.mem_read(dps[0].mem, ('f', ctx, 'state'))) if False else
+                          'the next state on this path is not a constant the rule can read (computed through a lookup table or a call result)')
+                continue
             ok = want == val
             ck.verdict(ok, 'C12.e', k, where,
                        'next=%s result=%s emit=%s' % val if ok else
                        'state %s, input %s, %s mode: code gives next=%s result=%s emit=%s; the property demands next=%s result=%s emit=%s'
                        % ((state, '+'.join(ev), m) + val + want))
     missing = [r for r in oracle if r not in matched and not (r[0] == 'START' and r[2] == 'classic')]
-    for r in missing:
+    for r in ([] if unread else missing):
         ck.violation('C12.e', 'decode:missing:%s:%s:%s' % (r[0], '+'.join(r[1]), r[2]), where,
                      'no path realises oracle row %s' % (r,))
     ck.floor('C12.e', 'decoder path classes', len(table), 14)
